@@ -6,7 +6,7 @@ import ast
 from typing import List, Optional, Set, Tuple
 
 from ..context import Ctx
-from ..kernel import expand, xshow
+from ..kernel import expand, expand1, xshow
 from ..loader import AnalysisError, FuncInfo, norm_stmt
 from ..paths import Path, show
 from ..resolve import own_nodes
@@ -103,6 +103,54 @@ def rule_access(ctx: Ctx):
                 v = xshow(e.x["value"], p.events)
                 rep.check(show(e.term) == "cache[self]" and v == "InstanceState(self, machine)", "C10.access", e.loc(),
                           "the cached view wraps this state for this machine", fi.key, norm_stmt(e.node))
+
+
+def rule_mapping(ctx: Ctx):
+    """C10.access (plumbing): states are looked up by their `value`; the mixin hands the model over."""
+    rep = ctx.rep
+    fn = ctx.fn("StateMachineMetaclass.add_state")
+    seen = False
+    for p in ctx.paths(fn, inline=None, exc_edges="none", unroll=1):
+        for e in p.of("store"):
+            if e.x.get("subscript") and xshow(e.term.value, p.events).endswith(".states_map"):
+                seen = True
+                rep.check(xshow(e.term.slice, p.events) == f"{fn.params[2]}.value" and show(e.x["value"]) == fn.params[2], "C10.access", e.loc(),
+                          "states_map maps a state's *value* to that state", fn.key, norm_stmt(e.node))
+        apps = [e for e in p.calls() if xshow(e.term.func, p.events).endswith(".states.append")]
+        ids = [e for e in p.calls() if show(e.term.func) == f"{fn.params[2]}._set_id"]
+        if apps and ids:
+            rep.check(ids[0].idx < apps[0].idx and show(apps[0].term.args[0]) == fn.params[2], "C10.access", apps[0].loc(),
+                      "a state gets its id (and default value) before it is registered", fn.key, norm_stmt(apps[0].node))
+        break
+    if not seen:
+        rep.violation("C10.access", fn.loc(), "add_state does not fill states_map", fn.key, "no states_map[...] store")
+    sid = ctx.fn("State._set_id")
+    for p in ctx.paths(sid, inline=None, exc_edges="none"):
+        facts = {xshow(b.term, p.events): b.x["taken"] for b in p.of("branch")}
+        st = [e for e in p.of("store") if e.x.get("attr") == "value"]
+        if st:
+            rep.check(facts.get("self.value is None") is True and show(st[0].x["value"]) == sid.params[1], "C10.access", st[0].loc(),
+                      "a state's value defaults to its id only when no value was given (None-test)", sid.key, norm_stmt(st[0].node), facts=facts)
+    mm = ctx.fn("MachineMixin.__init__")
+    ok = False
+    for p in ctx.paths(mm, inline=None, exc_edges="none"):
+        for e in p.calls():
+            f = show(expand1(e.term.func, p.events)) if isinstance(e.term.func, ast.Name) else ""
+            if f.startswith("registry.get_machine_cls("):
+                kw = {k.arg: show(k.value) for k in e.term.keywords}
+                ok = e.term.args and show(e.term.args[0]) == "self" and kw.get("state_field") == "self.state_field_name"
+                rep.check(bool(ok), "C10.access", e.loc(), "MachineMixin builds the machine over the model instance itself and its configured state field",
+                          mm.key, norm_stmt(e.node))
+    if not ok:
+        rep.violation("C10.access", mm.loc(), "MachineMixin does not hand the model to the machine", mm.key, "no machine_cls(self, state_field=...) call")
+
+
+def rule_written_value(ctx: Ctx):
+    """C10.access: after every executed transition the field holds the target's value (one write of
+    `transition.target` per executed transition, internal ones included; only the setters touch the field)."""
+    from . import c01
+
+    c01.rule_write(ctx, rule="C10.access")
 
 
 SM_ATTRS = {"model", "state_field", "start_value", "allow_event_without_transition", "_callbacks", "_states_for_instance", "_listeners", "_engine"}
@@ -233,7 +281,12 @@ def rule_falsy(ctx: Ctx):
             rep.ok("C10.falsy", fn.loc(), f"{fn.qualname}: no truthiness test on model / start_value / state values")
     rep.floor("C10.falsy", "functions scanned", n_fn, 60)
     rep.count("truthiness_uses_examined", n_uses)
-    # the two sites that select a default must be None-tests
+    rule_model_choice(ctx, rule="C10.falsy")
+
+
+def rule_model_choice(ctx: Ctx, rule: str = "C10.falsy"):
+    rep = ctx.rep
+    # the site that selects a default model must be a None-test
     init = ctx.fn("StateMachine.__init__")
     found = False
     for p in ctx.paths(init, inline=None, exc_edges="none"):
@@ -243,10 +296,10 @@ def rule_falsy(ctx: Ctx):
                 facts = {show(b.term): b.x["taken"] for b in p.events[: e.idx] if b.kind == "branch"}
                 v = xshow(e.x["value"], p.events)
                 if v == "model":
-                    rep.check(facts.get("model is None") is False or not facts, "C10.falsy", e.loc(), "the user's model object is the one used whenever one was given",
+                    rep.check(facts.get("model is None") is False or not facts, rule, e.loc(), "the user's model object is the one used whenever one was given",
                               init.key, norm_stmt(e.node), facts=facts)
                 else:
-                    rep.check(facts.get("model is None") is True, "C10.falsy", e.loc(), "a default Model() is created only when no model was given (None)",
+                    rep.check(facts.get("model is None") is True, rule, e.loc(), "a default Model() is created only when no model was given (None)",
                               init.key, norm_stmt(e.node), facts=facts, value=v)
     if not found:
         raise AnalysisError("anchor lost: assignment of self.model in StateMachine.__init__")
@@ -286,4 +339,4 @@ def rule_active(ctx: Ctx):
     rep.check(src == "return self._state() == other", "C10.active", ieq.loc(), "an instance view compares as the state it wraps", ieq.key, src)
 
 
-RULES = [rule_access, rule_noshadow, rule_falsy, rule_active]
+RULES = [rule_access, rule_written_value, rule_mapping, rule_noshadow, rule_falsy, rule_active]
